@@ -204,7 +204,9 @@ func runC18(c *Ctx) {
 					}) {
 						hasSelf = true
 					}
-					if t.Has(func(x *Term) bool { return anyElem(x, func(e *Term) bool { return e.IsField("From", isParam(route, 1)) }) }) {
+					if t.Has(func(x *Term) bool {
+						return anyElem(x, func(e *Term) bool { return e.IsField("From", isParam(route, 1)) })
+					}) {
 						hasSrc = true
 					}
 				}
@@ -281,6 +283,40 @@ func runC18(c *Ctx) {
 						return !k.Pol && k.Atom.Op == "EQ" && (k.Atom.Args[0].Name == "nil" && k.Atom.Args[1].String() == lt.String() || k.Atom.Args[1].Name == "nil" && k.Atom.Args[0].String() == lt.String())
 					})
 					if !guarded {
+						// or: on every path to this lookup the same entry was found present (`_, ok := m[k]`, ok
+						// edge) or has just been set (`m[k] = NewPeerList()`)
+						mt, kt := p.TermOf(lk.X).String(), p.TermOf(lk.Index).String()
+						sameEntry := func(m, k ssa.Value) bool { return p.TermOf(m).String() == mt && p.TermOf(k).String() == kt }
+						isSet := func(i2 ssa.Instruction) bool {
+							mu, ok := i2.(*ssa.MapUpdate)
+							return ok && sameEntry(mu.Map, mu.Key) && !isNilConst(mu.Value)
+						}
+						presentEdge := func(b *ssa.BasicBlock) int {
+							ifi := blockIf(b)
+							if ifi == nil {
+								return -1
+							}
+							cd := p.condOf(ifi.Cond, true)
+							ex, ok := cd.Atom.V.(*ssa.Extract)
+							if !ok || ex.Index != 1 {
+								return -1
+							}
+							l2, ok := ex.Tuple.(*ssa.Lookup)
+							if !ok || !l2.CommaOk || !sameEntry(l2.X, l2.Index) {
+								return -1
+							}
+							if cd.Pol {
+								return 0
+							}
+							return 1
+						}
+						entry := fn.Blocks[0].Instrs[0]
+						target := func(i2 ssa.Instruction) bool { return i2 == ssa.Instruction(lk) }
+						if !target(entry) && !isSet(entry) && !reachesWithout(entry, target, isSet, presentEdge) {
+							guarded = true
+						}
+					}
+					if !guarded {
 						bad++
 						c.Fail("R5", funcName(fn)+":nil-list", r.Pos(), "the peer list looked up for a role is used without a nil test: a leave event for a role never seen panics the agent")
 					}
@@ -291,4 +327,9 @@ func runC18(c *Ctx) {
 			c.Ok("R5", "Topology:lookups", 0, fmt.Sprintf("%d use(s) of looked-up peer lists, all nil-tested", n))
 		}
 	}
+}
+
+func isNilConst(v ssa.Value) bool {
+	k, ok := v.(*ssa.Const)
+	return ok && k.Value == nil
 }
